@@ -79,7 +79,10 @@ func (p *Printer) printTransaction(t *model.Transaction) (n int, err error) {
 			return p.count - start, err
 		}
 	}
-	if _, err := fmt.Fprintf(p, "%s \"%s\"", t.Date.Format("2006-01-02"), t.Description); err != nil {
+	// knut's syntax has no escape for a double quote inside a description: a description
+	// that contains one (bank statements do) would end the string early and make the
+	// printed journal unparseable, so it is written as a single quote.
+	if _, err := fmt.Fprintf(p, "%s \"%s\"", t.Date.Format("2006-01-02"), strings.ReplaceAll(t.Description, "\"", "'")); err != nil {
 		return p.count - start, err
 	}
 	if _, err := io.WriteString(p, "\n"); err != nil {
